@@ -24,5 +24,5 @@ def run(ctx, replay=None):
         if mode in ("usagefs", "usagedec"):
             return usage_fullstack.replay(ctx, replay)
     return pc.run_property(ctx, "C10", pc.mon_c10, GEN, N_QUICK, N_THOROUGH, replay=replay, rule=RULE,
-                           assumptions=[pc.PFCP_NOTE, usage_fullstack.KERNEL_NOTE], finding_sig=None, directed=None,
+                           assumptions=[pc.PFCP_NOTE, usage_fullstack.KERNEL_NOTE], finding_sig=None, directed=pc.directed_c10,
                            extra_phase=usage_fullstack.phase)
